@@ -28,6 +28,8 @@ def shards(tier, seed):
     out = [(t, v, p) for t in ts for v in vm for p in (PLACES + (["ba-hole"] if tier == "thorough" else []))]
     # objects that allocate targets for their references, in a buffer aligned to 16 bytes (padding between regions)
     out += [(t, v, "grown16") for t in ts if xt.has_refs(t) for v in vm]
+    # strings created from integer capacities (rooms that are not whole slots): every text that fits the capacity is a fitting value
+    out += [(t, "cap", "dirtyhole") for t in ts if any(s_[0] == "Str" for s_ in xt.subtypes(t)) and xt.py_expressible(t, xt.gen(t, "ramp"))]
     return out[seed % len(out):] + out[: seed % len(out)]
 
 
